@@ -129,7 +129,7 @@ def synth_preload(rng, n):
 
 def gen_inputs(tier, rng):
     thorough = tier == "thorough"
-    n_inv = 250 if thorough else 40
+    n_inv = 250 if thorough else 34
     n_util = 40 if thorough else 6
     maxpix = 20 if thorough else 14
     for i in range(n_inv):
